@@ -431,3 +431,27 @@ def c03_r7(ctx):
         prog.cls(cn)    # the class itself must exist
     if n < 12:
         raise AnalysisError("only %d reader classes found" % n)
+
+
+@rule("C03", "R8", "K3", "no finalizer closes what other readers may still share",
+      min_instances=12,
+      clause="No reader/searcher class defines __del__: Searcher.refresh() and FileIndex._reader(reuse=...) hand the sub-readers of an "
+             "old reader over to the new one, so an implicit close when the old object is garbage-collected would close files a live "
+             "reader is using. Closing is explicit (close(), context managers).")
+def c03_r8(ctx):
+    prog = ctx.prog
+    seen = set()
+    n = 0
+    for bname in READER_BASES:
+        base = prog.cls(bname)
+        for cls in [base] + prog.subclasses(base, strict=True):
+            if cls.qualname in seen:
+                continue
+            seen.add(cls.qualname)
+            n += 1
+            f = cls.methods.get("__del__")
+            ctx.ob(cls, f is None, "%s has no __del__" % cls.name,
+                   detail="a finalizer on a reader closes sub-readers that refresh()/reuse may have handed to a live reader" if f else "",
+                   loc=f.loc if f else cls.loc)
+    if n < 12:
+        raise AnalysisError("only %d reader classes found" % n)
